@@ -48,6 +48,7 @@ func execConc(line string) string {
 		}
 	}
 	rest := r.ops[i:]
+	r.forceRedeemers = true // exploration evaluates InputsAvailable: no deliberate orphaning
 	var wg sync.WaitGroup
 	for w := 0; w < 8; w++ {
 		wg.Add(1)
@@ -78,8 +79,8 @@ func (r *runner) issue(op string) {
 		mp.MaybeAcceptTransaction(d.tx, b(f[2]), b(f[3]))
 	case f[0] == "K" && ok:
 		mp.CheckMempoolAcceptance(d.tx)
-	case f[0] == "R" && ok:
-		mp.RemoveTransaction(d.tx, true)
+	case f[0] == "R" && ok && len(f) == 3:
+		mp.RemoveTransaction(d.tx, b(f[2]) || r.forceRedeemers)
 	case f[0] == "D" && ok:
 		mp.RemoveDoubleSpends(d.tx)
 	case f[0] == "O" && ok:
@@ -203,6 +204,7 @@ func execPar(line string) string {
 	}
 	defer r.e.close()
 	r.e.onEvent = func(byte) {}
+	r.recordInputs()
 	if _, bad := r.connectBase(splitList(parts[0], ";")); bad != "" {
 		return bad
 	}
@@ -231,6 +233,9 @@ func execPar(line string) string {
 	sn := r.snap()
 	if strings.Contains(sn.text, ";api-") {
 		return sn.text
+	}
+	if !r.inputsIntact() {
+		return "input-mutated"
 	}
 	// a group may orphan its own redeemers with R:x:0 (allowed by the API); InputsAvailable is not claimed then
 	if !hasPlainRemove(all) {
